@@ -223,13 +223,23 @@ def run(ctx, out, tier):
     out.inst("C15.root", k, 6, ["root := repository_root_path(canonicalize(current_dir()?)?)?; read root.join(path); walk root, strip_prefix(root)"])
 
     # ------------------------------------------------------------------ C15.fs — who may touch the file system
-    allowed = re.compile(r"^<blockwatch::blocks::FileSystemImpl as blockwatch::blocks::FileSystem>::|^bwbin::main$|^blockwatch::validators::check_lua::run_lua_script")
+    allowed = re.compile(r"^<blockwatch::blocks::FileSystemImpl as blockwatch::blocks::FileSystem>::|^bwbin::main$")
+
+    def script_loader(b, t):
+        """the check-lua validator reading the user's script: a read-only call in the check_lua module
+        whose result is what `Lua::load` is given (not a file under examination)"""
+        if "validators::check_lua::" not in b.id or not callee_matches(t, r"^(std|tokio)::fs::(read_to_string|read)$"):
+            return False
+        for bj, tj in b.calls():
+            if callee_matches(tj, r"^mlua::Lua::load$") and len(tj["args"]) > 1 and P.has_call(ctx.prov.read_operand(b, tj["args"][1]), re.escape(callee_name(t)) + "$"):
+                return True
+        return False
     fsn = 0
     for b in ctx.reachable_bodies():
         for bi, t in b.calls():
             if callee_matches(t, r"^std::fs::|^std::fs::File|^std::fs::OpenOptions|^tokio::fs::"):
                 fsn += 1
-                if not allowed.search(b.id):
+                if not allowed.search(b.id) and not script_loader(b, t):
                     out.viol("C15.fs", "C15.fs|%s|%s" % (b.id, callee_name(t).split("::")[-1]), ctx.where(b, t["span"]),
                              "`%s` is called outside the file-system role: a file could be examined without passing the glob / --ignore decision" % callee_name(t))
     out.inst("C15.fs", fsn, 3, note="std::fs call sites (FileSystemImpl::read_to_string, main's canonicalize, Lua script loader)")
